@@ -372,8 +372,17 @@ C18Mix(o, k, b) ==
 (* gain, value / coefficient for cost (compared cross-multiplied); ideal takes the best, nadir the   *)
 (* worst.  Ties in the measure leave the supplier of the reference value open, so the contract is    *)
 (* membership in the set of admissible reference values.                                             *)
-AnchorBetter(ty, v1, k1, v2, k2) ==       \* alternative 1 strictly better than alternative 2
-  IF ty = "cost" THEN v1 * k2 < v2 * k1 ELSE v1 * k1 > v2 * k2
+(* alternative 1 better than alternative 2 by more than the margin mg (0 on exact data; the rounding error of the *)
+(* recorded values otherwise, so that near-ties leave the supplier of the reference value open as well)         *)
+AnchorBetterM(ty, v1, k1, v2, k2, mg) ==
+  IF ty = "cost" THEN v1 * k2 < v2 * k1 - mg * (k1 + k2) ELSE v1 * k1 > v2 * k2 + mg * (k1 + k2)
+AnchorBetter(ty, v1, k1, v2, k2) == AnchorBetterM(ty, v1, k1, v2, k2, 0)
+AnchorAdmissibleM(ty, aa, vals, strat, mg) ==
+  {vals[aa[i].alternative] : i \in {i \in DOMAIN aa :
+      \A j \in DOMAIN aa :
+         IF strat = "ideal"
+         THEN ~AnchorBetterM(ty, vals[aa[j].alternative], aa[j].coefficient, vals[aa[i].alternative], aa[i].coefficient, mg)
+         ELSE ~AnchorBetterM(ty, vals[aa[i].alternative], aa[i].coefficient, vals[aa[j].alternative], aa[j].coefficient, mg)}}
 AnchorAdmissible(ty, aa, vals, strat) ==   \* aa: seq of [alternative, coefficient]; vals: alt -> value
   {vals[aa[i].alternative] : i \in {i \in DOMAIN aa :
       \A j \in DOMAIN aa :
@@ -417,19 +426,23 @@ C19Event(o, k, b) ==
              LET rg == RangeOf(before, c)
                  den == rg.max - rg.min
                  num == sgn(c, ValOfAlt(before, a, c)) - sgn(c, rp.criteria[c])
-                 better == (den > 0 /\ num > 0) \/ (den < 0 /\ num < 0)     \* scaled difference num/den > 0
-                 fd == IF better THEN p.gain ELSE p.loss
                  got == coefOf(a, c)
-             IN IF ~IsLinear(fd) THEN
-                    (* exponential mapping: sign only; a zero multiplier maps everything to zero *)
-                    /\ (PGet(FunParams(fd), "multiplier", 0) = 0 => got = 0)
-                    /\ ((PGet(FunParams(fd), "multiplier", 0) > 0 /\ PGet(FunParams(fd), "alpha", 0) > 0) => (IF better THEN got >= 0 ELSE got <= 0))
-                ELSE IF den = 0 THEN Near(got, 0 - PGet(FunParams(fd), "b", 0), Slack)      \* scale 0: difference 0 -> -loss(0)
-                ELSE LET tol == Slack * NAbs(den) + 2 * NAbs(PGet(FunParams(fd), "a", 0)) + 2 * NAbs(got) + 2 * NAbs(PGet(FunParams(fd), "b", 0)) + u IN
-                     IF better THEN Near(got * den, LinVal2(FunParams(fd), num, den, u), tol)
-                     ELSE Near(got * den, 0 - LinVal2(FunParams(fd), 0 - num, den, u), tol)
+                 (* which branch: gain when the scaled difference num/den is > 0.  The recorded values are rounded, so *)
+                 (* a difference within the rounding error of 0 may have taken either branch (the mapping jumps there) *)
+                 isBetter == (den > 0 /\ num > 0) \/ (den < 0 /\ num < 0)
+                 branchOK(better) ==
+                   LET fd == IF better THEN p.gain ELSE p.loss IN
+                   IF ~IsLinear(fd) THEN
+                       (* exponential mapping: sign only; a zero multiplier maps everything to zero *)
+                       /\ (PGet(FunParams(fd), "multiplier", 0) = 0 => got = 0)
+                       /\ ((PGet(FunParams(fd), "multiplier", 0) > 0 /\ PGet(FunParams(fd), "alpha", 0) > 0) => (IF better THEN got >= 0 ELSE got <= 0))
+                   ELSE IF den = 0 THEN Near(got, 0 - PGet(FunParams(fd), "b", 0), Slack)      \* scale 0: difference 0 -> -loss(0)
+                   ELSE LET tol == Slack * NAbs(den) + 2 * NAbs(PGet(FunParams(fd), "a", 0)) + 2 * NAbs(got) + 2 * NAbs(PGet(FunParams(fd), "b", 0)) + u IN
+                        IF better THEN Near(got * den, LinVal2(FunParams(fd), num, den, u), tol)
+                        ELSE Near(got * den, 0 - LinVal2(FunParams(fd), 0 - num, den, u), tol)
+             IN branchOK(isBetter) \/ (~ExactBefore(o, k) /\ NAbs(num) <= Slack /\ den # 0 /\ branchOK(~isBetter))
            refOK == /\ rp.id = strat /\ DOMAIN rp.criteria = C
-                    /\ \A c \in C : rp.criteria[c] \in AnchorAdmissible(ty[c], aa, allv(c), strat)
+                    /\ \A c \in C : rp.criteria[c] \in AnchorAdmissibleM(ty[c], aa, allv(c), strat, IF ExactBefore(o, k) THEN 0 ELSE Slack)
            scalingOK == /\ DOMAIN rep.criteriaScaling = C
                         /\ \A c \in C : LET rg == RangeOf(before, c) sc == rep.criteriaScaling[c] IN
                               /\ sc.valuesRange.min = rg.min /\ sc.valuesRange.max = rg.max
